@@ -214,6 +214,7 @@ impl<'a> ExecutorBuilder<'a> {
                                                         .column
                                                         .eq_ignore_ascii_case(arg_col.column),
                                                     (None, None) | (Some(Expr::Literal(_)), _) => true,
+                                                    (Some(agg_arg), Some(arg)) => *agg_arg == *arg,
                                                     _ => false,
                                                 };
                                                 if args_match {
@@ -447,11 +448,28 @@ impl<'a> ExecutorBuilder<'a> {
                         }
                     })
                     .collect();
+                // an argument that is not a plain column is evaluated row by row
+                let aggregate_args: Vec<Option<CompiledPredicate<'a>>> = agg
+                    .aggregates
+                    .iter()
+                    .map(|agg_expr| match agg_expr.argument {
+                        Some(arg)
+                            if !matches!(
+                                arg,
+                                crate::sql::ast::Expr::Column(_) | crate::sql::ast::Expr::Literal(_)
+                            ) =>
+                        {
+                            Some(CompiledPredicate::new(arg, column_map.to_vec()))
+                        }
+                        _ => None,
+                    })
+                    .collect();
                 Ok(DynamicExecutor::HashAggregate(HashAggregateState {
                     child: Box::new(child),
                     group_by: group_by_indices,
                     group_by_exprs,
                     aggregates: agg_funcs,
+                    aggregate_args,
                     arena: self.ctx.arena,
                     groups: hashbrown::HashMap::new(),
                     result_iter: None,
@@ -524,11 +542,28 @@ impl<'a> ExecutorBuilder<'a> {
                         }
                     })
                     .collect();
+                // an argument that is not a plain column is evaluated row by row
+                let aggregate_args: Vec<Option<CompiledPredicate<'a>>> = agg
+                    .aggregates
+                    .iter()
+                    .map(|agg_expr| match agg_expr.argument {
+                        Some(arg)
+                            if !matches!(
+                                arg,
+                                crate::sql::ast::Expr::Column(_) | crate::sql::ast::Expr::Literal(_)
+                            ) =>
+                        {
+                            Some(CompiledPredicate::new(arg, column_map.to_vec()))
+                        }
+                        _ => None,
+                    })
+                    .collect();
                 Ok(DynamicExecutor::HashAggregate(HashAggregateState {
                     child: Box::new(child),
                     group_by: group_by_indices,
                     group_by_exprs,
                     aggregates: agg_funcs,
+                    aggregate_args,
                     arena: self.ctx.arena,
                     groups: hashbrown::HashMap::new(),
                     result_iter: None,
@@ -747,6 +782,7 @@ impl<'a> ExecutorBuilder<'a> {
             group_by,
             group_by_exprs: None,
             aggregates,
+            aggregate_args: Vec::new(),
             arena: self.ctx.arena,
             groups: hashbrown::HashMap::new(),
             result_iter: None,
